@@ -125,6 +125,10 @@ impl Collector {
         self.inner.lock().unwrap().sub.insert(name.to_string(), v);
     }
 
+    pub fn sub_json(&self, name: &str) -> String {
+        self.inner.lock().unwrap().sub.get(name).map(|v| v.to_string()).unwrap_or_default()
+    }
+
     pub fn exhaustive(&self, part: &str) {
         self.inner.lock().unwrap().exhaustive_parts.push(part.to_string());
     }
